@@ -1185,7 +1185,7 @@ pub static C12: CheckDef = CheckDef {
     run: run_c12,
     quick_runs: 300_000,
     thorough_runs: 20_000_000,
-    rule: "transport-facing surfaces only. http-body: valid JSON / batch / multipart bodies mutated at byte level (flips, cuts, duplications, inserted brackets up to depth 200, huge numbers, invalid \\u escapes) and delivered through the simulated reader with chunking, Pending gaps, truncation and I/O errors (ConnectionReset, Interrupted, Other, UnexpectedEof), followed by execution of whatever was decoded. multipart-hostile: broken boundaries, headers without names, map entries of the wrong kind, files without file names, placeholders pre-filled with forged upload markers, and (half of the runs) a spool disk that delays, shortens or fails writes. websocket-hostile: mutated and random message sequences into the real WebSocket under both protocols. forged-upload-markers: variables that forge the internal upload marker with and without uploaded files, and uploads bound through Request::set_upload onto positions that already hold a forged marker. Oracle: no panic (caught per run and attributed by source location), no stall or step-cap once the input has ended, and every malformed input is answered with an error value. Non-trivial = a fault fired or the input was mutated; distinct = distinct event-order hashes.",
+    rule: "transport-facing surfaces only. http-body: valid JSON / batch / multipart bodies (one in ten carrying a document from a fixed corpus of 14 hostile documents: fragment cycles, repeated spreads, deep nesting, unknown fragments, huge numbers) mutated at byte level (flips, cuts, duplications, inserted brackets up to depth 200, huge numbers, invalid \\u escapes) and delivered through the simulated reader with chunking, Pending gaps, truncation and I/O errors (ConnectionReset, Interrupted, Other, UnexpectedEof), followed by execution of whatever was decoded. multipart-hostile: broken boundaries, headers without names, map entries of the wrong kind, files without file names, placeholders pre-filled with forged upload markers, and (half of the runs) a spool disk that delays, shortens or fails writes. websocket-hostile: mutated and random message sequences into the real WebSocket under both protocols. forged-upload-markers: variables that forge the internal upload marker with and without uploaded files, and uploads bound through Request::set_upload onto positions that already hold a forged marker. Oracle: no panic (caught per run and attributed by source location), no stall or step-cap once the input has ended, and every malformed input is answered with an error value. Non-trivial = a fault fired or the input was mutated; distinct = distinct event-order hashes.",
     real: &["receive_body / receive_batch_body / receive_json over the simulated reader", "multer", "WebSocket::poll_next", "Upload::parse / Upload::value", "executor on the decoded request"],
     stub: &["request body, client inbox (simulated)", "blocking::Unblock (inline stand-in with the simulator's fault hook)", "async runtime"],
     assumptions: &["stack overflow and allocation failure abort the process and are outside this check; the 200k-bracket parser overflow named in the property's rationale is a pure-input search (fuzzing), not a schedule or fault"],
@@ -1233,7 +1233,36 @@ fn run_c12(variant: usize) -> CaseOut {
     match variant {
         0 | 1 => {
             let (ct, body): (Option<String>, Vec<u8>) = if variant == 0 {
-                let r = gen_req();
+                let mut r = gen_req();
+                // a small fixed corpus of hostile documents rides along (no search over documents: that
+                // would be fuzzing); whatever the transport decodes is executed, so these reach the
+                // depth check, the validation visitors and the executor
+                if chance(1, 10) {
+                    const HOSTILE: &[&str] = &[
+                        "{ ...F } fragment F on PlainQuery { id ...F }",
+                        "{ ...A } fragment A on PlainQuery { ...B } fragment B on PlainQuery { id ...A }",
+                        "{ ...F ...F ...F } fragment F on PlainQuery { id }",
+                        "{ id ...F ... on PlainQuery { ... on PlainQuery { ... on PlainQuery { ...F } } } } fragment F on PlainQuery { id }",
+                        "{ ...Nope }",
+                        "{ ...F } fragment F on Nope { id }",
+                        "{ plain(n: 99999999999999999999999999) }",
+                        "{ plain(s: \"\"\"unterminated) }",
+                        "query($a: [[[[[[[[[[[[Int]]]]]]]]]]]]) { id }",
+                        "{ __schema { types { fields { type { ofType { ofType { ofType { ofType { name } } } } } } } } }",
+                        "{ id @skip(if: false) @skip(if: false) @include(if: true) @include(if: true) @skip(if: false) }",
+                        "mutation { ...M } fragment M on UpQuery { plain ...M }",
+                    ];
+                    let k = draw(HOSTILE.len() as u32 + 2) as usize;
+                    r.query = if k < HOSTILE.len() {
+                        HOSTILE[k].to_string()
+                    } else if k == HOSTILE.len() {
+                        format!("{}id{}", "{ a ".repeat(150 + draw(200) as usize), " }".repeat(10))
+                    } else {
+                        format!("{{ {} }}", (0..400).map(|i| format!("a{i}: id")).collect::<Vec<_>>().join(" "))
+                    };
+                    r.operation_name = None;
+                    sim::count("probe:hostile-document");
+                }
                 match draw(3) {
                     0 => (Some("application/json".into()), serde_json::to_vec(&json!({"query": UP_QUERY, "variables": {"a": gen_json(0), "b": [gen_json(1)], "o": gen_json(0)}})).unwrap()),
                     1 => (None, serde_json::to_vec(&json!([req_json(&r), {"query": "{ plain(s: \"x\") }"}])).unwrap()),
